@@ -811,6 +811,43 @@ pub fn part_types(ev: &mut Ev, model: &mut Model, opts: &Opts) {
         }
     }
     receive_nest_witness(ev);
+    // parenthesised process forms and their near misses (the forms patch C18-fixes/04 re-routes)
+    for i in 0..opts.tier.pick(600u64, 6_000u64) {
+        let mut r = Rng::for_case(opts.seed ^ 0x7479_7065_5f70, i);
+        let mut g = Gen { r: &mut r, wild: 0 };
+        let a = catch(|| quiver_compiler::format_program(&program_of(&AliasAst { name: Some("t".into()), params: vec![], ty: g.ty(2) }), "")).unwrap_or_default();
+        let b = catch(|| quiver_compiler::format_program(&program_of(&AliasAst { name: Some("t".into()), params: vec![], ty: g.ty(2) }), "")).unwrap_or_default();
+        let (a, b) = (type_part(&a).unwrap_or("'a").trim_end().to_string(), type_part(&b).unwrap_or("'b").trim_end().to_string());
+        if a.contains('\n') || b.contains('\n') {
+            continue;
+        }
+        let sp = |r: &mut Rng| r.pick(&["", " ", "  ", "\n", " // c\n", "\t"]).to_string();
+        let (s1, s2, s3, s4, s5) = (sp(g.r), sp(g.r), sp(g.r), sp(g.r), sp(g.r));
+        let t = match g.r.below(14) {
+            0 => format!("(@{a} -> {b})"),
+            1 => format!("(@-> {b})"),
+            2 => format!("(@{s1}->{s2}{b})"),
+            3 => format!("(@{a}{s1}->{s2}{b})"),
+            4 => format!("({s1}@{a} -> {b})"),
+            5 => format!("(@{s1}{a} -> {b})"),
+            6 => format!("(@{a} -> {b}{s1})"),
+            7 => format!("(@{a} & {b} -> 'r)"),
+            8 => format!("(@{a} | {b} -> 'r)"),
+            9 => format!("(@{a} -> {b}, x: 'c)"),
+            10 => format!("(@(@{a} -> {b}) -> (@-> (@{b} -> {a})))"),
+            11 => format!("(@{a}{s3},{s4}x: {b}{s5})"),
+            12 => format!("(@{a} ->)"),
+            _ => format!("(@{a}{s1})"),
+        };
+        if paren_depth(&t) > MAX_PAREN_DEPTH {
+            continue;
+        }
+        let src = format!("'t = {t}");
+        ev.case(&src, true);
+        ev.hit("types:stream:process-forms");
+        check_text(ev, model, "process-forms", &src);
+        check_hook(ev, model, "process-forms", &t);
+    }
 
     // (a) generated ASTs
     for i in 0..budget {
